@@ -31,8 +31,12 @@ func main() {
 		fmt.Fprintf(os.Stderr, "c20 harness: %d cases\n", out.N)
 	case "corpus":
 		runCorpus(a)
-	case "replay":
-		runReplay(a)
+	case "rich":
+		runRich(a)
+	case "dir":
+		out := common.NewOut(a["--out"])
+		defer out.Close()
+		runDir(a, out)
 	default:
 		fmt.Fprintln(os.Stderr, "unknown mode", mode)
 		os.Exit(2)
